@@ -793,6 +793,46 @@ def concurrency(ctx, corr, H):
                                     'input': {'jobs': [describe(x) for x in jobs]}, 'expected': sorted(allowed), 'got': stray})
             return
     corr.extra['concurrency_rounds'] = rounds
+    model_interleavings(ctx, corr, H)
+
+def model_interleavings(ctx, corr, H):
+    """the executable two-driver system of the model (`drv_c14 pair`) under seeded interleavings: each side must print
+    what its solo run prints (this exercises C14_concurrent's statement on the executable model)"""
+    rng = ctx.rng
+    n = 200 if ctx.thorough else 30
+    lines, solos = [], []
+    for it in range(n):
+        pair = []
+        for j in range(2):
+            mode = rng.choice(['S', 'c', 'link', 'E'])
+            kinds = tuple(rng.choice(['c', 's', 'o']) if mode != 'E' else 'c' for _ in range(rng.randrange(1, 3) if mode == 'link' else 1))
+            c = base_case(mode, True, kinds)
+            c['out'] = f'side{j}.out'
+            if rng.random() < 0.5:
+                fv = [x for x in fault_variants(c, False) if x['fault']['via'] == 'shim']
+                if fv:
+                    c = rng.choice(fv)
+            pair.append(c)
+        files = {}
+        for c in pair:
+            for i in c['inputs']:
+                files[i['name']] = i['pos'] + 1
+        a, b = (H.model_line_input(c, files) for c in pair)
+        il = ''.join(rng.choice('01') for _ in range(rng.randrange(0, 40)))
+        lines.append(f'{a}\n{b}\nil={il}\n')
+        solos.append((a, b))
+    out = ctx.driver('pair', ''.join(lines)).splitlines()
+    solo_out = ctx.driver('trace', ''.join(f'{a}\n{b}\n' for a, b in solos)).splitlines()
+    for it in range(n):
+        corr.evaluations += 1
+        corr.count('model-interleaving')
+        parts = out[it].split(' || ')
+        sa = solo_out[2 * it].split(' files=')[0]
+        sb = solo_out[2 * it + 1].split(' files=')[0]
+        if parts[0] != sa or parts[1].replace('tmq#', 'tmp#') != sb:
+            corr.disagreements.append({'kind': 'model interleaving differs from model solo run', 'input': lines[it],
+                                       'model': out[it], 'impl': [sa, sb]})
+            return
 
 def correspond(ctx, corr):
     H = Harness(ctx)
@@ -813,6 +853,9 @@ def correspond(ctx, corr):
                                          else 'all shapes with 1..2 inputs, a seeded sample of 3-input shapes and of the fault points')
     if not corr.violations and not corr.disagreements:
         concurrency(ctx, corr, H)
+    # a handful of witnesses is enough; every one of them is a replay file
+    del corr.violations[4:]
+    del corr.disagreements[4:]
 
 def search(ctx, broken, corr):
     """a proof or the tie broke without a violation in the standard run: full enumeration with the postconditions as oracle"""
